@@ -100,6 +100,63 @@ def programHasUnboxedCond (p : Program) : Bool :=
   p.comps.any fun sd => sd.methods.any (·.body.any stmtHasUnboxedCond) ||
     (match sd.init with | some (_, b) => b.any stmtHasUnboxedCond | none => false)
 
+/-- the log entries following each marker line `m`: `k` lines per occurrence -/
+def afterMarker (logs : List String) (m : String) (k : Nat) : List (List String) :=
+  match logs with
+  | [] => []
+  | l :: rest => if l == m then rest.take k :: afterMarker rest m k else afterMarker rest m k
+
+def countOf (x : String) (xs : List String) : Nat := (xs.filter (· == x)).length
+
+def hasDupS : List String → Bool
+  | [] => false
+  | a :: rest => rest.contains a || hasDupS rest
+
+/-- tags of the destruction events `R.ResourceDestroyed(tag: k)` -/
+def destroyedTags (evs : List String) : List String :=
+  evs.filterMap fun e =>
+    if e.startsWith "R.ResourceDestroyed(tag: " && e.endsWith ")" then
+      some ((e.drop "R.ResourceDestroyed(tag: ".length).dropEnd 1).toString
+    else none
+
+/-- C02 census on one engine's observation of a completed run: every created tag exactly once among
+    the resources found in storage and the destruction events; no uuid twice -/
+def resCensus (o : Obs) (engine : String) : Option Verdict :=
+  if !o.out.startsWith "ok:" then none else
+  let created := (afterMarker o.logs "\"C\"" 1).map (·.headD "?")
+  let walked := afterMarker o.logs "\"W\"" 2
+  let wtags := walked.map (·.headD "?")
+  let uuids := walked.map (fun e => (e.drop 1).headD "?")
+  let dtags := destroyedTags o.events
+  if hasDupS uuids then some (.violation "uuid-twice" ("uuids of live resources pairwise distinct (" ++ engine ++ ")") [])
+  else
+    match created.find? (fun t => countOf t wtags + countOf t dtags != 1) with
+    | some t =>
+      if countOf t wtags + countOf t dtags == 0 then
+        some (.violation "resource-lost" ("created resource " ++ t ++ " is stored or destroyed (" ++ engine ++ ")") [])
+      else some (.violation "resource-duplicated" ("created resource " ++ t ++ " exactly once among stored + destroyed (" ++ engine ++ ")") [])
+    | none =>
+      if (wtags ++ dtags).any (fun t => !created.contains t) then
+        some (.violation "resource-from-nowhere" ("only created resources are stored / destroyed (" ++ engine ++ ")") [])
+      else if dtags.length != o.events.length then
+        some (.violation "destroy-event-shape" ("only default destruction events (" ++ engine ++ ")") [])
+      else none
+
+/-- C04 oracle: the generator's specification says which uses succeed (and what they log) and whether
+    the last use must fail with the invalidated-reference error -/
+def refOracle (op : List String) (o : Obs) (engine : String) : Option Verdict :=
+  let expect := field op "expect"
+  let tags := ((field op "tags").splitOn ",").filter (· ≠ "")
+  let uses := section_ o.logs "use"
+  let want := if expect == "ok" then "ok:Int:0" else
+    "user:" ++ (if expect == "invalidated" then "invalidated-reference" else expect)
+  if o.out == want && uses == tags then none
+  else if expect != "ok" && o.out.startsWith "ok:" then
+    some (.violation "stale-reference-usable" ("outcome " ++ want ++ " (" ++ engine ++ ")") [])
+  else if o.out == "user:invalidated-reference" && (expect == "ok" || uses.length < tags.length) then
+    some (.violation "valid-reference-unusable" ("the references whose referent has not moved stay usable (" ++ engine ++ ")") [])
+  else some (.violation "reference-wrong-outcome" ("outcome " ++ want ++ " logging " ++ ",".intercalate tags ++ " (" ++ engine ++ ")") [])
+
 /-- per-stream direct oracle on the interpreter's and the VM's observation -/
 def streamOracle (stream : String) (op : List String) (o : Obs) (engine : String) : Option Verdict :=
   match stream with
@@ -109,6 +166,8 @@ def streamOracle (stream : String) (op : List String) (o : Obs) (engine : String
     if section_ o.logs (u ++ "0") ≠ section_ o.logs (u ++ "1") then
       some (.violation "copy-aliased" ("dump of the untouched side " ++ u ++ " unchanged by the mutations (" ++ engine ++ ")") [])
     else none
+  | "resown" => resCensus o engine
+  | "refinv" => refOracle op o engine
   | _ => none
 
 def judge (op : List String) (go : String) : Verdict :=
@@ -127,7 +186,7 @@ def judge (op : List String) (go : String) : Verdict :=
       else .violation "go-internal-error" ("no internal error / crash for a checker-accepted program; interp=" ++ i.out ++ " vm=" ++ v.out) tags0
     else if oi ≠ ov then .violation "engines-differ" ("vm observation = interpreter observation = " ++ oi) tags0
     else
-      match streamOracle stream op i "interp" with
+      match (streamOracle stream op i "interp").orElse (fun _ => streamOracle stream op v "vm") with
       | some verdict => verdict
       | none =>
       if sx.startsWith "oof:" then .skip ("out-of-fragment:" ++ (sx.drop 4).toString)
